@@ -44,7 +44,7 @@ static int take(const char *content, size_t len, obs_cfg *o, sbuf *why, const ch
 {
   mc_write_file(path, content, len);
   econf_file *kf = NULL;
-  econf_err rc = econf_readFile(&kf, path, cg.D, cg.C);
+  econf_err rc = econf_readFile(&kf, path, cg.D, cg.Carg);
   mc_st->libcalls++;
   if (rc != ECONF_SUCCESS || !kf) { sb_printf(why, "reading the %s failed with %d (%s)", what, (int)rc, econf_errString(rc)); return -1; }
   sbuf err = {0};
@@ -66,7 +66,7 @@ static void exec(void)
     if (i < cg_n) { sb_puts(&mod, cg_l[i].text); sb_putc(&mod, '\n'); }
   }
   sb_puts(&sig, "file=\""); sb_put_esc(&sig, mod.s, mod.len); sb_printf(&sig, "\" inserted-line=%d delim=\"", ins_pos + 1); sb_put_escs(&sig, cg.D);
-  sb_puts(&sig, "\" comment=\""); sb_put_escs(&sig, cg.C); sb_puts(&sig, "\"");
+  sb_puts(&sig, "\" comment=\""); sb_put_escs(&sig, cg.Carg); sb_puts(&sig, "\"");
   snprintf(mc_case_sig, sizeof mc_case_sig, "%s", sig.s);
   mc_log("%s\n", sig.s);
   /* the base file changes slowest in the enumeration: its listing is cached and re-taken when the content (or configuration) changes */
@@ -119,7 +119,7 @@ int main(int argc, char **argv)
   snprintf(path, sizeof path, "%s/f.conf", mc_work);
   if (mc_opt.case_id) return mc_replay(gen, exec, mc_opt.case_id);
   int complete = 1;
-  for (int cfgi = 0; cfgi < CG_NCFG && complete; cfgi++) {
+  for (int cfgi = 0; cfgi < CG_NCFG_WITH_DEFAULT_COMMENT && complete; cfgi++) {
     mc_tag = cfgi;
     complete = mc_explore(gen, exec, 0, 0);
   }
